@@ -19,6 +19,32 @@ class Fault(OSError):
     pass
 
 
+# ---- fake file descriptors: fileno() of a fake file is a number >= FD_BASE; os.fstat on it reports the RAW size of the
+# ---- underlying file (for the gzip model: the compressed member bytes), as the real os.fstat would.
+FD_BASE = 1 << 20
+_FDS = {}
+_real_fstat = None
+
+
+def new_fd(size_fn):
+    fd = FD_BASE + len(_FDS)
+    _FDS[fd] = size_fn
+    return fd
+
+
+def install_fstat():
+    import os
+    global _real_fstat
+    if _real_fstat is None:
+        _real_fstat = os.fstat
+
+        def fstat(fd):
+            if isinstance(fd, int) and fd in _FDS:
+                return types.SimpleNamespace(st_size=_FDS[fd](), st_mode=0o100644)
+            return _real_fstat(fd)
+        os.fstat = fstat
+
+
 class Killed(BaseException):
     pass
 
@@ -98,8 +124,14 @@ class PyFile:
             raise FileNotFoundError(2, 'No such file', name)
         self.pos = len(fs.files[name]) if 'a' in mode else 0
         self.pending = b''
+        self._fd = None
         if writing:
             fs.open_files.append(self)
+
+    def fileno(self):
+        if self._fd is None:
+            self._fd = new_fd(lambda: len(self.fs.files.get(self.name, b'')))
+        return self._fd
 
     def _put(self, data):
         cur = self.fs.files[self.name]
@@ -174,18 +206,54 @@ GZ_TRL = b'GZTRAIL!'
 
 
 class GzModel:
+    """gzip.GzipFile stand-in. Writing: header at open, payload verbatim, trailer at close. Reading ('rb'): the concatenated
+    payloads of the members of the file; like the real class it cannot seek from the end (ValueError)."""
     def __init__(self, fs, filename, mode='rb'):
-        self.f = PyFile(fs, filename, mode)
         self.mode = mode
-        if any(c in mode for c in 'wa'):
+        self.fs = fs
+        self.name = filename
+        self.writing = any(c in mode for c in 'wa')
+        if self.writing:
+            self.f = PyFile(fs, filename, mode)
             self.f.write(GZ_HDR)
+        else:
+            self.f = PyFile(fs, filename, 'rb')
+            members = gz_members(fs.files[filename])
+            if members is None:
+                raise OSError('Not a gzipped file')
+            self.data = b''.join(m[2] for m in members)
+            self.p = 0
 
     def write(self, data):
         return self.f.write(data)
 
+    def read(self, n=-1):
+        out = self.data[self.p:] if n is None or n < 0 else self.data[self.p:self.p + n]
+        self.p += len(out)
+        return out
+
+    def tell(self):
+        return self.p
+
+    def seek(self, off, whence=0):
+        if whence == 2:
+            raise ValueError('Seek from end not supported')
+        self.p = off if whence == 0 else self.p + off
+        return self.p
+
+    def fileno(self):
+        return self.f.fileno()
+
+    def flush(self):
+        pass
+
+    @property
+    def closed(self):
+        return self.f.closed
+
     def close(self):
         if not self.f.closed:
-            if any(c in self.mode for c in 'wa'):
+            if self.writing:
                 self.f.write(GZ_TRL)
             self.f.close()
 
@@ -221,6 +289,7 @@ def install(rec_mod, fs):
                               join=posixpath.join)
     rec_mod.os = types.SimpleNamespace(path=p, remove=fs.remove)
     rec_mod.gzip = types.SimpleNamespace(GzipFile=lambda filename=None, mode='rb', **k: GzModel(fs, filename, mode))
+    install_fstat()
     rec_mod.glob = types.SimpleNamespace(glob=fs.glob)
     import wpull.util
     wpull.util.truncate_file = lambda path: PyFile(fs, path, 'wb').close()
